@@ -161,8 +161,11 @@ func (w *World) evaluate(out *Outcome, need time.Duration, quiescent bool) {
 					if !ok {
 						r.violate("C03", "stalled:final-watermark-never-acked", "source %s never received an acknowledgement equal to its final high watermark %d (last ack %d) within %v of virtual time after the last confirmation, with every target acknowledging and the source repeating its watermark every %d ms",
 							s, fin, r.srcLastAck[s], need, sc.PeriodMS)
-					} else if at-r.lastConfirmAt > need.Milliseconds() && at > 0 {
-						r.violate("C03", "stalled:final-watermark-late", "source %s got its final acknowledgement %d ms after the last confirmation (bound %d ms)", s, at-r.lastConfirmAt, need.Milliseconds())
+					} else if ref := max(r.lastConfirmAt, r.lastResumeAt); at-ref > need.Milliseconds() && at > 0 {
+						// (measured from the later of: last confirmation of a task, last time a stalled target resumed
+						// reading - a final watermark queued in front of a target that does not read cannot be acknowledged
+						// before it reads again; seed 4 fair/173: target stalled for 15.7 s after its tasks were confirmed)
+						r.violate("C03", "stalled:final-watermark-late", "source %s got its final acknowledgement %d ms after the last confirmation / last resumed read (bound %d ms)", s, at-ref, need.Milliseconds())
 					}
 				}
 			}
